@@ -73,7 +73,7 @@ func ZZC15Hdr(n int) {
 	req := zzReq("GET", "/p")
 	ctx := types.NewContext()
 	accept, val, parses := "", "", false
-	switch c := zzv.Choice("accept", 10); c {
+	switch c := zzv.Choice("accept", 15); c {
 	case 0:
 	case 1:
 		accept = "garbage;;="
@@ -91,6 +91,8 @@ func ZZC15Hdr(n int) {
 		accept, val, parses = "a/b; "+strings.ToUpper(wantKey)+"=v-3", "v-3", true
 	case 8:
 		accept, val, parses = "A/B;"+strings.ToUpper(wantKey[:1])+wantKey[1:]+"=1", "1", true
+	case 9, 10, 11, 12, 13: // a listed version behind a media type that does not parse: rejected
+		accept = []string{"a//b", "/b", "a/", "a b/c", "a/b/c"}[c-9] + "; " + wantKey + "=1"
 	default:
 		tail := zzv.Bytes("val", n)
 		zzv.Assume(len(tail) > 0)
